@@ -5,17 +5,21 @@
 
    ONE coroutine ("the parker") and ONE Park object at a time: the per-coroutine Park of
    `coroutine::park` (never replaced) or the Park of a fresh `Blocker` (action [ANewPark] replaces the
-   object: everything that still refers to the old object can no longer reach the coroutine, except the
-   set_co of a kernel half that is still in flight, see [oldk]).  One transition = one shared-memory
+   object: everything that still refers to the old object can no longer reach the coroutine - except, before
+   the repair of F31, the set_co of a kernel half that is still in flight, see [oldk] / AStaleSetco; with
+   fixF31 the registration precedes the publication of the coroutine and [oldk] stays 0).  One transition = one shared-memory
    access of the Rust code, in program order; the schedule (list of actions) chooses the interleaving,
    the client program (which park calls with which timeouts, how many unparkers / cancellers, when time
    passes).  Definitions only; proofs are in ParkInv*.v / ParkThm.v.
 
-   Parameters [fixF8], [fixF12]: the code as it is in /repo is [step true true].  [step false true] is
-   subscribe without the deadline self-check (before commit "Park::subscribe times out by itself when it
-   was stalled past the deadline"), [step true false] releases the kernel guard only after the nested
-   resume (before commit "Park::subscribe releases the kernel guard before it resumes the coroutine
-   itself"); both are kept for the `_refuted` witnesses. *)
+   Parameters [fixF8], [fixF12], [fixF31]: the code as it is in /repo is [step true true true].
+   [step false true true] is subscribe without the deadline self-check (before commit "Park::subscribe times
+   out by itself when it was stalled past the deadline"), [step true false true] releases the kernel guard
+   only after the nested resume (before commit "Park::subscribe releases the kernel guard before it resumes
+   the coroutine itself"), [step true true false] registers the slot with the Cancel AFTER it has published
+   the coroutine and re-checks the cancel by calling Cancel::cancel (before commit "Park, fast Park and Sleep
+   register the cancel data before they publish the coroutine; the re-check wakes it up itself"); all three
+   are kept for the `_refuted` witnesses. *)
 From Coq Require Import List ZArith Bool Arith.
 Import ListNotations.
 Require Import MayV.Rt.AtomicDur MayV.Base.BlockerSpec.
@@ -50,6 +54,7 @@ Inductive kpc :=
 | KArm                                    (* add_timer(dur, wait_co.clone()) *)
 | KHandle                                 (* set_timeout_handle: swap *)
 | KGon                                    (* delay_drop: wait_kernel.store(true) *)
+| KReg                                    (* cancel.set_co(wait_co.clone()) BEFORE the coroutine is published (fixF31) *)
 | KStore                                  (* wait_co.store(co) *)
 | KChk                                    (* now() >= deadline ? *)
 | KStake                                  (* wait_co.take() of the self time-out *)
@@ -60,9 +65,10 @@ Inductive kpc :=
 | KFgoff (got : bool)
 | KFrun                                   (* run_coroutine(co) *)
 | KNest                                   (* only without fixF12: waiting for the nested run_coroutine to return *)
-| KSetco                                  (* cancel.set_co(wait_co.clone()) *)
+| KSetco                                  (* only without fixF31: cancel.set_co(wait_co.clone()) after the re-check of the token *)
 | KCchk                                   (* cancel.is_canceled() *)
-| KC1 | KC2 | KC3 | KC3s | KC4            (* cancel.cancel(): fetch_or, co.take, take (this / stale slot), set para + schedule *)
+| KC1 | KC2 | KC3s                        (* only without fixF31: cancel.cancel(): fetch_or, co.take, take of a stale slot *)
+| KC3 | KC4                               (* wait_co.take() of the cancel re-check (without fixF31: inside cancel()); set para + schedule *)
 | KGoff.                                  (* DropGuard::drop at the end of subscribe *)
 
 Inductive npc := NIdle | NTake (stale : bool) | NHold.       (* unparker: after swap(true) that returned false / holding the coroutine *)
@@ -236,7 +242,7 @@ Definition optnat_eqb (a b : option nat) : bool :=
   match a, b with Some x, Some y => Nat.eqb x y | None, None => true | _, _ => false end.
 
 Section Step.
-Variables fixF8 fixF12 : bool.
+Variables fixF8 fixF12 fixF31 : bool.
 
 Definition after_stake (b : bool) : kpc := if fixF12 then KSgoff b else if b then KSrun else KGoff.
 Definition after_ftake (b : bool) : kpc := if fixF12 then KFgoff b else if b then KFrun else KGoff.
@@ -244,7 +250,7 @@ Definition after_run : kpc := if fixF12 then KIdle else KNest.
 
 (* the kernel half of an earlier Blocker that has stored the coroutine but not yet reached set_co *)
 Definition setco_ahead (k : kpc) : bool :=
-  match k with KChk | KSload | KSetco => true | _ => false end.
+  if fixF31 then false else match k with KChk | KSload | KSetco => true | _ => false end.
 
 Definition ustep (s : st) : option st :=
   if negb (running s) then None else
@@ -291,21 +297,22 @@ Definition kstep (s : st) : option st :=
                                |> set_ntm (S (ntm s)) |> set_kp KHandle)
             | None => None end
   | KHandle => Some (s |> set_kp KGon)   (* the handle of the entry just armed ([hnd], set with KArm) is published; the old one is null *)
-  | KGon => Some (s |> set_wk true |> set_kp KStore)
+  | KGon => Some (s |> set_wk true |> set_kp (if fixF31 then KReg else KStore))
+  | KReg => Some (s |> set_cco CThis |> set_kp KStore)
   | KStore => Some (s |> set_slot true |> set_kp (if fixF8 then KChk else KSload))
   | KChk => Some (s |> set_kp (match kdl s with Some t => if t <=? now s then KStake else KSload | None => KSload end))
   | KStake => if slot s then Some (s |> set_slot false |> set_wsrc WSelfTmo |> set_kp (after_stake true))
               else Some (s |> set_kp (after_stake false))
   | KSgoff b => Some (s |> set_wk false |> set_kp (if b then KSrun else KIdle))
   | KSrun => Some (s |> set_para (Some PTimeout) |> set_running true |> set_up UYb |> set_nested (negb fixF12) |> set_kp after_run)
-  | KSload => Some (s |> set_kp (if pstate s then KFtake else KSetco))
+  | KSload => Some (s |> set_kp (if pstate s then KFtake else if fixF31 then KCchk else KSetco))
   | KFtake => if slot s then Some (s |> set_slot false |> set_wsrc WSelfTok |> set_kp (after_ftake true))
               else Some (s |> set_kp (after_ftake false))
   | KFgoff b => Some (s |> set_wk false |> set_kp (if b then KFrun else KIdle))
   | KFrun => Some (s |> set_running true |> set_up UYb |> set_nested (negb fixF12) |> set_kp after_run)
   | KNest => if nested s then None else Some (s |> set_kp KGoff)
   | KSetco => Some (s |> set_cco CThis |> set_kp KCchk)
-  | KCchk => Some (s |> set_kp (if canceled s then KC1 else KGoff))
+  | KCchk => Some (s |> set_kp (if canceled s then (if fixF31 then KC3 else KC1) else KGoff))
   | KC1 => Some (s |> set_cbit true |> set_kp KC2)
   | KC2 => match cco s with
            | CThis => Some (s |> set_cco CNone |> set_kp KC3)
@@ -434,7 +441,7 @@ End Step.
 (* the kernel half has the coroutine in its hands *)
 Definition kholds (k : kpc) : bool :=
   match k with
-  | KDur | KNow | KArm | KHandle | KGon | KStore | KSgoff true | KSrun | KFgoff true | KFrun | KC4 => true
+  | KDur | KNow | KArm | KHandle | KGon | KReg | KStore | KSgoff true | KSrun | KFgoff true | KFrun | KC4 => true
   | _ => false end.
 
 Definition b2n (b : bool) : nat := if b then 1%nat else 0%nat.
